@@ -459,3 +459,44 @@ func DescribeDecisions(ds []schedrun.Decision) string {
 	}
 	return strings.Join(parts, "; ")
 }
+
+// Oversubscribed reports whether the pods occupying the nodes of w (running, terminating, bound,
+// being bound; reservation pods excluded) already ask for more CPU or GPUs (whole GPUs plus distinct
+// shared devices) than some node has. Such a world is not a state a cluster can be in; scenario
+// grammars use it to drop ill-formed initial worlds.
+func Oversubscribed(w *world.World) bool {
+	type use struct {
+		cpu, whole int64
+		groups     map[string]bool
+	}
+	per := map[string]*use{}
+	for _, o := range Occupants(w) {
+		if world.IsReservationPod(o.Pod) {
+			continue
+		}
+		u := per[o.Node]
+		if u == nil {
+			u = &use{groups: map[string]bool{}}
+			per[o.Node] = u
+		}
+		r := ReqOf(o.Pod)
+		u.cpu += r.MilliCPU
+		u.whole += r.WholeGPU
+		for _, g := range o.Groups {
+			u.groups[g] = true
+		}
+	}
+	for _, n := range w.Nodes {
+		u := per[n.Name]
+		if u == nil {
+			continue
+		}
+		if u.cpu > alloc(n, corev1.ResourceCPU) {
+			return true
+		}
+		if u.whole+int64(len(u.groups)) > alloc(n, corev1.ResourceName(world.GpuResource)) {
+			return true
+		}
+	}
+	return false
+}
